@@ -464,6 +464,11 @@ def readEntries (be : Bool) (fs : List RawField) (S : Rec) (data : Bytes) : Py (
 def readContent (t : ElfTables) (data : Bytes) (S : Rec) : Py Sec := do
   let ty := fget S "sh_type"
   let bytes ← fileRead data (fget S "sh_offset") (fget S "sh_size")
+  -- repair C20-elf-truncated-tables.diff: a table section that the file does not hold completely is an
+  -- ElfError (otherwise `Sym(b"", …)` unpacks nothing and the entry loop runs `sh_size / sh_entsize` times)
+  if (ty == SHT_SYMTAB || ty == SHT_DYNSYM || ty == SHT_REL || ty == SHT_RELA || ty == SHT_DYNAMIC)
+      && bytes.length != fget S "sh_size" then
+    throw .elfError
   if ty == SHT_SYMTAB || ty == SHT_DYNSYM then
     return .syms (← readEntries t.be (symFields t.x64) S bytes)
   else if ty == SHT_STRTAB then return .strtab bytes
